@@ -64,7 +64,7 @@ def _s(v, bits):
 
 def cfg(**kw):
     d = dict(cfg_kinds=KNOWN_KINDS, cfg_twin=0, cfg_tags=0, cfg_enum=0, cfg_maxdims=1, cfg_aelem=3,
-             cfg_unsized=0, cfg_ntypes=2, cfg_nm=2, cfg_nptr=0, cfg_need_unknown=0, cfg_after=0)
+             cfg_unsized=0, cfg_ntypes=2, cfg_nm=2, cfg_nptr=0, cfg_need_unknown=0, cfg_after=0, cfg_azt=0)
     d.update(kw)
     return d
 
@@ -262,7 +262,7 @@ class V(object):
 
     def __init__(self, top=STRUCT):
         self.inp = cfg(cfg_kinds=ALL_KINDS, cfg_tags=1, cfg_enum=2, cfg_maxdims=3, cfg_aelem=3,
-                       cfg_unsized=1, cfg_ntypes=5, cfg_nm=3, cfg_nptr=1, top=top, k=0)
+                       cfg_unsized=1, cfg_ntypes=5, cfg_nm=3, cfg_nptr=1, cfg_azt=1, top=top, k=0)
         self.i = 0
 
     def _m(self, kind):
@@ -296,6 +296,8 @@ class V(object):
         self.inp['ahas[%d]' % i] = kw.get('has', 1)
         for d, n in enumerate(dims):
             self.inp['alen[%d]' % (i * ADIM + d)] = n
+            # flags without influence on a fixed-size array's layout (alternate them over the cases)
+            self.inp['azt[%d]' % (i * ADIM + d)] = (n + d) & 1
         self.inp['aelem[%d]' % i] = self._sc(i, spec)
         return self
 
@@ -481,6 +483,9 @@ def partitions(tier):
         for k in range(1, kmax + 1):
             c = cfg(cfg_kinds=mask, top=top, k=k)
             txt = KNOWN_TXT % ('' if top == UNION else ', callback member')
+            if k <= 3:
+                c.update(cfg_azt=1)
+                txt += '; zero-terminated flag of arrays symbolic'
             if k == kmax:
                 c.update(cfg_aelem=1)
                 txt = txt.replace('of basic / pointer / enum', 'of basic')
